@@ -150,6 +150,15 @@ def typesFamily (fam : String) : Option (Parser String) :=
       match t.toList with
       | 's' :: cs => pure (match parseHex cs with | some b => s!"ok {showWords (wordsOfBytes b)}" | none => "err")
       | _ => failure
+    | "ca_w4" => do
+      let b ← bytes; done
+      if b.length = 32 then
+        let ws := wordsOfBytes b
+        pure s!"{showWords ws} {hexOfBytes (bytesOfWords ws)} {hexOfBytes b}"
+      else failure
+    | "sig65" => do
+      let b ← bytes; done
+      if b.length = 65 then pure s!"{hexOfBytes (b.take 64)} {b.getD 64 0} {hexOfBytes b}" else failure
     | "bool" => do
       let w ← int; done
       pure (match boolOfWord? w with | some b => s!"some {b}" | none => "none")
